@@ -26,7 +26,7 @@ def _plain(k):
     if isinstance(k, Opaque): return ('opaque', k.tag)
     if isinstance(k, str): return ('str', k)
     if isinstance(k, Seq):
-        vals = [z3.simplify(x) for x in k.fields]
+        vals = [x if z3.is_int_value(x) else z3.simplify(x) for x in k.fields]
         if all(z3.is_int_value(v) for v in vals): return ('seq', tuple(v.as_long() for v in vals))
     if z3.is_expr(k): return None
     return None
